@@ -351,7 +351,7 @@ class Contract:
                  inline=(), inline_only=False, slice=None, class_attrs=None, writes=(), note="", shape_bound=4,
                  native=None, name=None, self_spec=None, max_shapes=60, crosscheck=True, refute=True, assumed=False,
                  native_call=None, cases_filter=None, gen=None, native_ok=True, compare_native=None, slice_note=None,
-                 not_decided=(), lemmas=None, ghost_after=None, finite=None, locate=None, curry=()):
+                 not_decided=(), lemmas=None, ghost_after=None, finite=None, locate=None, curry=(), finite_native=None):
         self.target = target
         self.props = list(props)
         self.params = dict(params or {})
@@ -382,6 +382,7 @@ class Contract:
         self.not_decided = list(not_decided)
         self.lemmas = dict(lemmas or {})
         self.ghost_after = dict(ghost_after or {})
+        self.finite_native = finite_native  # finite_native(obligation id) -> (fails natively: bool, text)
         self.finite = finite              # finite(registry) -> list of (id, ok, detail): exhaustive exact decision
         self.curry = tuple(curry)         # parameters applied to the function value returned by a lambda-returning lambda
         self.locate = locate              # locate(module) -> AST node (for code that is not a named function)
